@@ -2,6 +2,7 @@ import TwistedModel.Ssh.KeyBlob
 import TwistedModel.Ssh.PrivKey
 import TwistedModel.Ssh.Lsh
 import TwistedModel.Ssh.OpenSSHv1
+import TwistedModel.Ssh.PubText
 /-!
 Driver glue for C37.  Bytes as hex (`-` = empty), integers in decimal.
   `C37 NS <hex>`            → hex
@@ -27,10 +28,17 @@ private layouts — `<key>` is `rsa n e d p q` | `dsa p q g y x` | `ec <curve> <
       `<T>` = `<kp> <ks> <klen> <krounds> <kout> <ck> <civ> <cin> <cout>`: the ONE call of `bcrypt.kdf` and the ONE
       cipher `update` the real code made (recorded by the harness); the model's cipher is that table —
       any other argument gives an empty result, so a model that calls them differently disagrees.
+
+the OpenSSH public text line (`TwistedModel/Ssh/PubText.lean`) — `<pub>` is `rsa e n` | `dsa p q g y` | `ed <a>`:
+  `C37 pubText <pub> <comment>` → hex of `_toPublicOpenSSH(comment)`     (`opaque` for `ec …`)
+  `C37 fromPubText <hex>` → `PUBLIC <pub>`     `_fromString_PUBLIC_OPENSSH` (also `fromString(type="public_openssh")`)
+  `C37 fromStringPub <hex>` → `PUBLIC <pub>`   `fromString(data)`: `_guessStringType`, then the reader it names
+  `C37 guess <hex>` → `public_openssh` | `private_openssh` | `public_lsh` | `private_lsh` | `agentv3` | `blob` | `None`
+      (`!raised IndexError`, `!raised Error` = binascii.Error, `!raised BadKeyError`, `opaque`, `other-format`)
 -/
 namespace Twisted.Drv.C37
 open Twisted.Py Twisted.Ssh.Wire Twisted.Ssh.KeyBlob Twisted.Ssh.PrivKey Twisted.Ssh.Sexpy Twisted.Ssh.Lsh
-  Twisted.Ssh.OpenSSHv1
+  Twisted.Ssh.OpenSSHv1 Twisted.Ssh.PubText
 
 def showErr : Err → String
   | .struct => "!raised error"
@@ -136,6 +144,53 @@ def showFieldsP : Except ParseErr PrivFields → String
   | .ok f => showFields f
   | .error e => showPErr e
 
+def showTextErr : TextErr → String
+  | .wire e => showErr e
+  | .badKey => "!raised BadKeyError"
+  | .index => "!raised IndexError"
+  | .binascii => "!raised Error"
+  | .opaque => "opaque"
+  | .other => "other-format"
+
+def showPubP : Except TextErr PubKey → String
+  | .ok (.rsa e n) => s!"PUBLIC rsa {e} {n}"
+  | .ok (.dsa p q g y) => s!"PUBLIC dsa {p} {q} {g} {y}"
+  | .ok (.ec c pt) => s!"PUBLIC ec {hex c} {hex pt}"
+  | .ok (.ed25519 a) => s!"PUBLIC ed {hex a}"
+  | .error e => showTextErr e
+
+def showGuess : Guess → String
+  | .publicOpenssh => "public_openssh"
+  | .privateOpenssh => "private_openssh"
+  | .publicLsh => "public_lsh"
+  | .privateLsh => "private_lsh"
+  | .agentv3 => "agentv3"
+  | .blob => "blob"
+  | .none => "None"
+
+def handleText (args : List String) : String :=
+  match args with
+  | "pubText" :: rest =>
+    match rest.reverse with
+    | comment :: revPub => match parsePub revPub.reverse, unhex comment with
+      | some k, some c => match toPublicOpenSSH k c with
+        | .ok b => hex b
+        | .error e => showTextErr e
+      | _, _ => "bad-op"
+    | [] => "bad-op"
+  | ["fromPubText", h] => match unhex h with
+    | some b => showPubP (fromPublicOpenSSH b)
+    | none => "bad-op"
+  | ["fromStringPub", h] => match unhex h with
+    | some b => showPubP (fromStringGuess b)
+    | none => "bad-op"
+  | ["guess", h] => match unhex h with
+    | some b => match guessStringType b with
+      | .ok g => showGuess g
+      | .error e => showTextErr e
+    | none => "bad-op"
+  | _ => "bad-op"
+
 def handlePriv (args : List String) : String :=
   match args with
   | "privBlob" :: rest => match parseKey rest with
@@ -207,7 +262,7 @@ def handlePriv (args : List String) : String :=
       | .ok f => showFields f
       | .error e => showV1Err e
     | _, _, _ => "bad-op"
-  | _ => "bad-op"
+  | _ => handleText args
 
 def handle (args : List String) : String :=
   match args with
